@@ -106,6 +106,7 @@ func checkCmd(argv []string) int {
 		fmt.Fprintln(os.Stderr, "contracts:", err)
 		return 2
 	}
+	P.aimOn = hasTag
 	loadS := time.Since(t0).Seconds()
 	// which contracts
 	inScope := func(pkg string) bool {
@@ -135,7 +136,8 @@ func checkCmd(argv []string) int {
 	var funcs []string
 	for _, k := range keys {
 		ct := P.contracts[k]
-		if ct.Trusted || !inScope(ct.Pkg) {
+		aimHere := ct.AimCheck != nil && hasTag(ct.AimCheck.Tag)
+		if (ct.Trusted && !aimHere) || !inScope(ct.Pkg) {
 			continue
 		}
 		if !contractMentions(P, ct, hasTag) {
@@ -200,6 +202,7 @@ func checkCmd(argv []string) int {
 
 	// call-graph frame conditions (forbids clauses)
 	forb := P.ForbidsObligations(hasTag)
+	forb = append(forb, P.NoWriteObligations(hasTag)...)
 	if len(forb) > 0 {
 		frs = append(frs, &FuncResult{VC: NewVC(P.reg), Obls: forb})
 		for _, o := range forb {
@@ -471,6 +474,10 @@ func contractMentions(P *Program, ct *Contract, hasTag func(string) bool) bool {
 			return true
 		}
 	}
+	if ct.AimCheck != nil && hasTag(ct.AimCheck.Tag) {
+		return true
+	}
+
 	cl := func(cs []Clause) bool {
 		for _, c := range cs {
 			if hasTag(c.Tag) {
